@@ -95,10 +95,16 @@ def add_state_diagram(r, ids, rows, d, nested_prob=0.2):
         children = []
         if t.get("effect") is not None:
             ai = t["effect"]
+            pool = rows.setdefault("act_pool", {})
+            if act_ids[ai] is None and d.get("shared_effects") and d["activities"][ai] in pool:
+                # an activity first used on a transition of another diagram of the project: that transition owns it
+                act_ids[ai] = pool[d["activities"][ai]]
             if act_ids[ai] is None:
                 act_ids[ai] = (ids.new(), tid)
                 aid = act_ids[ai][0]
                 aname = d["activities"][ai]
+                if d.get("shared_effects"):
+                    pool[aname] = act_ids[ai]
                 rows["models"].append((aid, "Activity", tid, aname, blob(r, aid, aname, "Activity", [("body", '""'), ("bodyFontSize", "0")] + common_entries(r, ids, did, view=False))))
             aid, owner = act_ids[ai]
             path = "%s:%s:%s:%s" % (top, rel, owner, aid)
@@ -234,6 +240,26 @@ def rand_diagram(r, name):
     return dict(name=name, states=states, initial=r.randrange(ns) if r.random() < 0.9 else None, has_initial=True,
                 transitions=trans, activities=activities, notes=r.choice([0, 0, 1, 2]),
                 drawn_twice=[i for i in range(len(trans)) if r.random() < 0.08])
+
+
+def share_effects(r, ds):
+    """diagrams of one project using the same effect activity (VP keeps one Activity element, owned by the transition it was
+    first put on - possibly a transition of another diagram)"""
+    src = [d for d in ds if d["activities"]]
+    if len(ds) < 2 or not src:
+        return False
+    done = False
+    for d in ds:
+        o = r.choice(src)
+        if d is o or not d["activities"]:
+            continue
+        name = r.choice(o["activities"])
+        if name in d["activities"]:
+            continue
+        d["activities"][r.randrange(len(d["activities"]))] = name
+        d["shared_effects"] = o["shared_effects"] = True
+        done = True
+    return done
 
 
 def expected_rows(d):
